@@ -135,5 +135,20 @@ ReprsFor == {"generic"} \cup (IF ~Reprs THEN {} ELSE
 CaseFor(rep) == [id |-> ToString(<<u, ix, call.name, call.arg, call.then, rep>>), kind |-> "render", f |-> call.name,
                  prog |-> Prog(rep), env |-> << <<A, Arr(arr)>> >>]
                 @@ (IF rep = "generic" THEN <<>> ELSE [repr |-> [a |-> rep]])
-EmitCase == \A rep \in ReprsFor : PrintT(ToJson(CaseFor(rep)))
+\* the same call with its argument in a variable, in another Go representation (a Drop, a pointer, a typed slice, a range)
+ArgV == <<118, 49>>      \* v1
+PipedV == [t |-> "filter", e |-> V(A), name |-> call.name, args |-> <<V(ArgV)>>]
+ProgV == (IF Scalar THEN <<Ob(PipedV)>>
+          ELSE IF OneElem THEN <<[t |-> "assign", name |-> RR, e |-> PipedV]>> \o ElemProbe(RR)
+          ELSE <<[t |-> "assign", name |-> RR, e |-> PipedV], Each(RR)>>) \o <<T(<<35>>)>> \o <<Each(A)>>
+ArgHints == CASE call.arg \in {"comma", "k"} -> <<"drop", "ptr", "dropdrop">>
+              [] call.arg = "other" -> <<"ints", "drop", "range", "int64s", "ptr">>
+              [] call.arg = "empty" -> <<"nilslice", "drop", "range">>
+              [] OTHER -> <<"drop">>
+EmitCase ==
+  /\ \A rep \in ReprsFor : PrintT(ToJson(CaseFor(rep)))
+  /\ (call.arg # "none" /\ call.then = "none" /\ Len(ix) <= 2) =>
+       \A h \in 1..Len(ArgHints) :
+         PrintT(ToJson([id |-> ToString(<<u, ix, call.name, call.arg, "argvar", h>>), kind |-> "render", f |-> call.name,
+                        prog |-> ProgV, env |-> << <<A, Arr(arr)>>, <<ArgV, ArgVals[1]>> >>, repr |-> ("v1" :> ArgHints[h])]))
 =============================================================================
